@@ -241,7 +241,7 @@ fn run_observed(g: &Generated, text: &str, jet_result: Option<(String, Result<Va
 
 fn e_closed_form(i: u64, ctx: &mut Ctx) -> Result<(), Failure> {
     let js = with_reference();
-    let per = ctx.tier.pick(40, 2000);
+    let per = ctx.tier.pick(150, 3000);
     let sig = &js[(i / per) as usize];
     let k = i % per;
     let mut tape = Tape::new((0..200).map(|x| splitmix(i * 1009 + x) as u32).collect());
@@ -301,7 +301,7 @@ fn direct(sig: &JetSig, args: &[Val]) -> Result<Result<Val, ()>, Failure> {
 
 fn e_direct(i: u64, ctx: &mut Ctx) -> Result<(), Failure> {
     let js = callable();
-    let per = ctx.tier.pick(8, 200);
+    let per = ctx.tier.pick(30, 600);
     let sig = &js[(i / per) as usize];
     let mut tape = Tape::new((0..600).map(|x| splitmix(i * 7919 + x + 17) as u32).collect());
     let args = gen_args(&mut tape, sig, i % 2 == 0);
@@ -327,15 +327,15 @@ fn e_direct(i: u64, ctx: &mut Ctx) -> Result<(), Failure> {
 pub fn streams() -> Vec<Stream> {
     vec![
         Stream { name: "signatures", kind: Kind::Enum { count: |_| all_jets().len() as u64, complete: |_| true, f: e_signatures }, isolate: false },
-        Stream { name: "closed-form", kind: Kind::Enum { count: |t: Tier| with_reference().len() as u64 * t.pick(40, 2000), complete: |_| false, f: e_closed_form }, isolate: false },
-        Stream { name: "direct", kind: Kind::Enum { count: |t: Tier| callable().len() as u64 * t.pick(8, 200), complete: |_| false, f: e_direct }, isolate: false },
+        Stream { name: "closed-form", kind: Kind::Enum { count: |t: Tier| with_reference().len() as u64 * t.pick(150, 3000), complete: |_| false, f: e_closed_form }, isolate: false },
+        Stream { name: "direct", kind: Kind::Enum { count: |t: Tier| callable().len() as u64 * t.pick(30, 600), complete: |_| false, f: e_direct }, isolate: false },
     ]
 }
 
 pub fn def() -> PropertyDef {
     PropertyDef {
         id: "C13",
-        rule: "signatures (complete over the jets): for every jet of golden/jets.tsv (which must name exactly Elements::ALL) the one-call program with witnesses bound at the documented parameter types and the result at the documented type is accepted, compiles, commits 1 -> 1 and satisfies; with one argument dropped / added, two differently typed arguments swapped, the result or one argument at a layout-equal other type it is rejected; jet::verify and jet::check_sig_verify are rejected. closed-form: every jet with a native reference (arithmetic, comparison, bit logic, shifts, pads; written from the Simplicity specification) x 40 (thorough 2000) asymmetric argument tuples (boundary and random): the program asserts every integer of the result against the reference (one constant wrong in 1/4 of the cases) and its verdict must equal the prediction. direct: every callable jet x 8 (200) tuples: the arguments are laid out in written order by the reference layout, scribed into a hand-built Simplicity program `scribe ; jet` (no Simfony involved), its output decoded at the documented result type, and the Simfony call must observe exactly that value (or fail iff the jet fails). evaluations = acceptance decisions + executions. Non-trivial = call with >= 2 arguments or a tuple-typed argument / result; distinct by digest.",
+        rule: "signatures (complete over the jets): for every jet of golden/jets.tsv (which must name exactly Elements::ALL) the one-call program with witnesses bound at the documented parameter types and the result at the documented type is accepted, compiles, commits 1 -> 1 and satisfies; with one argument dropped / added, two differently typed arguments swapped, the result or one argument at a layout-equal other type it is rejected; jet::verify and jet::check_sig_verify are rejected. closed-form: every jet with a native reference (arithmetic, comparison, bit logic, shifts, pads; written from the Simplicity specification) x 150 (thorough 3000) asymmetric argument tuples (boundary and random): the program asserts every integer of the result against the reference (one constant wrong in 1/4 of the cases) and its verdict must equal the prediction. direct: every callable jet x 30 (600) tuples: the arguments are laid out in written order by the reference layout, scribed into a hand-built Simplicity program `scribe ; jet` (no Simfony involved), its output decoded at the documented result type, and the Simfony call must observe exactly that value (or fail iff the jet fails). evaluations = acceptance decisions + executions. Non-trivial = call with >= 2 arguments or a tuple-typed argument / result; distinct by digest.",
         assumptions: &[
             "golden/jets.tsv is a reviewed snapshot of the published signatures at the pinned commit: for the ~170 jets without closed form it can only detect change",
             "the jets themselves (rust-simplicity's C implementation) are trusted; the native references are validated against them in the direct stream",
